@@ -330,7 +330,7 @@ Lemma val_past s s' X p d a :
   past_ok g c s s' X = true -> item s' p d a ->
   match d with
   | 0 => p <> 0
-  | S d' => exists pr, nth_error g p = Some pr /\ nth_error (rhs pr) d' = Some X /\ item s p d' a
+  | S d' => exists pr a', nth_error g p = Some pr /\ nth_error (rhs pr) d' = Some X /\ item s p d' a'
   end.
 Proof.
   intros Hpast Hi. unfold past_ok in Hpast. rewrite forallb_forall in Hpast.
@@ -339,7 +339,12 @@ Proof.
   - apply negb_true_iff in Hpast. apply Nat.eqb_neq in Hpast. exact Hpast.
   - destruct (nth_error g p) as [pr|] eqn:Hp; [|discriminate].
     destruct (nth_error (rhs pr) d') as [Y|] eqn:Hd; [|discriminate].
-    apply andb_true_iff in Hpast as [E Hi']. apply sym_eqb_eq in E. subst. eauto.
+    apply andb_true_iff in Hpast as [E Hi']. apply sym_eqb_eq in E. subst.
+    unfold has_item0 in Hi'. apply existsb_exists in Hi' as ([[p' d''] a'] & Hin & Hm).
+    apply andb_true_iff in Hm as [Hm1 Hm2]. apply Nat.eqb_eq in Hm1, Hm2. subst p' d''.
+    exists pr, a'. repeat split; auto.
+    unfold has_item. apply existsb_exists. exists (p, d', a'). split; auto.
+    unfold item_eqb. rewrite !Nat.eqb_refl. reflexivity.
 Qed.
 
 Lemma val_rows s : s < nst ->
